@@ -239,6 +239,10 @@ pub const SLIPPED_HEADERS: &[(&str, &str)] = &[
     ("If-None-Match", "\""), ("If-None-Match", "W/"), ("If-None-Match", "*, \"x\""), ("If-None-Match", ","), ("If-Match", "\"x"), ("If-Modified-Since", "x"), ("If-Modified-Since", "0"), ("If-Modified-Since", "-1"),
     ("If-Modified-Since", "Thu, 01 Jan 1970 00:00:00 GMT"), ("If-Modified-Since", "Tue, 19 Jan 2038 03:14:08 GMT"), ("If-Unmodified-Since", "x"), ("If-Range", "W/"), ("If-Range", "x"),
     ("Content-Type", "multipart/form-data"), ("Content-Type", "multipart/form-data; boundary"), ("Content-Type", "multipart/form-data; boundary=\""), ("Content-Type", ";"), ("Content-Type", "text/plain; charset"),
+    // addresses with unbalanced brackets and other half-written forms, in every header that carries an address
+    ("X-Forwarded-For", "[2001:db8::7"), ("X-Forwarded-For", "[::1"), ("X-Forwarded-For", "2001:db8::7]"), ("X-Forwarded-For", "203.0.113.7, [2001:db8::7"), ("X-Forwarded-For", "[]"), ("X-Forwarded-For", "unknown"),
+    ("X-Real-IP", "[::1"), ("X-Client-IP", "[2001:db8::7"), ("CF-Connecting-IP", "[::1"), ("True-Client-IP", "1.2.3.4:"), ("X-Cluster-Client-IP", "[::"), ("Forwarded", "for=\"[2001:db8::7"), ("Forwarded", "for=[::1"), ("Forwarded", "for=\"[::1]:x\""),
+    ("Via", "1.1 [::1"), ("X-Forwarded-Host", "[::1"), ("X-Forwarded-Port", "99999999999"), ("X-Forwarded-For", ""),
     ("Forwarded", "for"), ("Forwarded", "for=;"), ("X-Forwarded-For", ","), ("X-Forwarded-For", "a, b, "), ("X-Forwarded-Host", "h:"), ("X-Forwarded-Port", "x"), ("X-Forwarded-Proto", ""),
     ("Host", ":"), ("Host", "h:"), ("Host", "h:x"), ("Host", "[::1"), ("Host", "h:-1"), ("Referer", "http://[::1"), ("Referer", "://"), ("Referer", "http://h:x/"), ("Referer", "h"),
     ("Origin", "http://h:"), ("Origin", "http://h:x"), ("Origin", "http://[::1"), ("Origin", "://"), ("Origin", "http://h:99999999999999999999"),
